@@ -32,8 +32,8 @@ RULE = ("random histories of 1..12 (thorough: up to 40) reads / writes on a dens
         "read, key shorter than the order, right-hand side of another size, negative index below -extent, empty "
         "region in a new mode) only 'rejected or not' is recorded; the object is restored from a snapshot after "
         "every rejected or out-of-domain call (a rejected write may already have grown the shape).  Index lists "
-        "hold non-negative entries (distinct in writes; reads also repeat an entry); subscript arrays are "
-        "non-negative; array right-hand sides have exactly "
+        "hold non-negative entries, now and then with a repeated entry (not together with an array / tensor "
+        "right-hand side); subscript arrays are non-negative; array right-hand sides have exactly "
         "the shape of the region's kept modes.  non-trivial = at least one accepted write changed a cell or the "
         "shape; distinct = distinct case hash")
 ASSUMPTIONS = [
@@ -308,8 +308,8 @@ def gen_key(rng, shape, write, d10=False, for_sparse=False):
             parts.append({"int": i})
         elif t == "list":
             L = rng.sample(range(hi), rng.randint(1, min(3, hi)))
-            if not write and rng.random() < 0.12:
-                L = L + [L[0]]  # a repeated entry (reads only)
+            if rng.random() < 0.12:
+                L = L + [L[0]]  # a repeated entry (writes: scalar right-hand sides only, see gen_rhs)
             parts.append({"list": L})
         else:
             parts.append({"slice": gen_slice(rng, e, hi, m >= n)})
@@ -339,7 +339,7 @@ def gen_rhs(rng, ref, key, for_sparse=False):
                        else ["scalar", "scalar", "zero", "arr", "arr", "tensor"])
         if t == "zero":
             return {"r": "scalar", "v": 0}
-        if t == "scalar" or not rshape or 0 in rshape:
+        if t == "scalar" or not rshape or 0 in rshape or has_repeated_list(key):
             return {"r": "scalar", "v": rnd_val(rng, 0.1)}
         return {"r": t, "shape": rshape, "data": [rnd_val(rng) for _ in range(numel(rshape))]}
     try:
